@@ -88,6 +88,7 @@ class Plot:
             raise UndefinedActionError("There is no dataset in this plot to be fitted.")
 
         result = ft.fit(target.fit_target_dataset, *args, **kwargs)
+        kwargs.pop("xrange", None)  # the range of the fit; the curve takes its range from the result
         color = kwargs.pop(
             "color", target.color if isinstance(target, ObjectOnPlot) else "")
         obj = self.__create_object_on_plot(result, color=color, **kwargs)
